@@ -137,7 +137,8 @@ def _inspect_process_ir_param(param, sig):
             if isinstance(sig_param.annotation, str)
             else formatannotation(sig_param.annotation)
         )
-    if sig_param.default is not _empty:
+    if sig_param.default is not _empty and "default" not in _param:
+        # documented information takes precedence, the signature fills the gaps
         _param["default"] = sig_param.default
         if _param.get("typ", _empty) is _empty:
             _param["typ"] = type(_param["default"]).__name__
